@@ -10,6 +10,15 @@ CFG = {
         "Leptos.Macro.C18_inert_denotes",
         "Leptos.Macro.C18_paths_agree",
         "Leptos.Macro.C18_macro_eq_builder",
+        # the streaming entry points: async emitter = sync emitter
+        "Leptos.Macro.C18_stream_eq_sync",
+        "Leptos.Macro.C18_stream_denotes",
+        "Leptos.Macro.expHtmlAsync_eq",
+        # below a parent that does not escape its own text (<noscript>): static path = builder path = what the children denote
+        "Leptos.Macro.C18_raw_parent_builder",
+        "Leptos.Macro.C18_raw_parent_static",
+        "Leptos.Macro.C18_raw_parent_macro",
+        "Leptos.Macro.macro_denotes_top",
         # adding a dynamic part leaves the static parts alone (one-hole contexts)
         "Leptos.Macro.C18_static_parts_stable",
         "Leptos.Macro.C18_static_parts_stable_block",
@@ -65,14 +74,19 @@ CFG = {
             "classes (three of them repaired: regression shapes), EVERY node kind the macro accepts in every position (fragments "
             "with 0/1/2/3 children and nested in each other, comments, unquoted text, components with children and nested "
             "components, MathML and SVG subtrees, 17-20 children so that tuples are chunked — each inside a fully static and "
-            "inside a dynamic non-root element, at the root, inside fragments and components; <!DOCTYPE html> as first root), then pseudo-random templates of depth <= 3 (0-3 attributes of 8 forms per element, quoted and unquoted text, "
+            "inside a dynamic non-root element, at the root, inside fragments and components; <!DOCTYPE html> as first root), elements with markup-significant text "
+            "BELOW <noscript> (the one non-escaping element that may contain markup) on the static and on the builder path, custom "
+            "elements with dynamic attributes/children, then pseudo-random templates of depth <= 3 (0-3 attributes of 8 forms per element, quoted and unquoted text, "
             "{blocks} only in dynamic subtrees, fragments (possibly empty), comments, components, svg, math in static and dynamic "
             "subtrees alike; 3/5 of the subtrees without dynamic holes). Each shape in three "
             "variants: as written, forced-dynamic twin (every literal a {..} with the same value), one extra dynamic sibling inside "
             "a seed-independent element. The seed chooses the values of all dynamic holes (hostile alphabet < > & \" ' = ` <!-- --> "
             "]]> </script </title> &amp; &#x3c; multi-byte, arbitrary scalar values, class/style-shaped strings, empty strings) and "
             "the first shape; cases cycle through all shapes. A case = the three variants + an agreement op (80%), or one variant "
-            "alone with all holes random (20%). distinct = distinct op lines; trivial (`plain`) = no tag at all (never happens: every "
+            "alone with all holes random (20%). EVERY render goes through three entry points: to_html(), "
+            "to_html_stream_in_order().collect(), to_html_stream_out_of_order().collect() — all three are compared with the model "
+            "(sync emitter / async emitter) and checked by the tree oracle (the *_branching variants run the same emitters with "
+            "TypeId-valued <!--bo/bc--> comments around AnyView and are not compared). distinct = distinct op lines; trivial (`plain`) = no tag at all (never happens: every "
             "case renders at least one variant)",
     "trusted": [
         "rstml (the template parser in front of leptos_macro::view): the harness writes the template source, rstml parses it; the "
@@ -82,13 +96,17 @@ CFG = {
         "(Leptos.Html.parse, hx_c06::html); SVG elements are parsed as custom elements x-<tag> on both sides (foreign content is "
         "outside the parser subset; leptos emits neither '/>' nor CDATA)",
         "extract.py (table Elements: macro void / no-escape lists, tachys element rows)",
+        "a <noscript> WITH element children is read by the oracle as a user agent without scripting reads it (content = markup), "
+        "a <noscript> with only strings as the scripting-enabled parser reads it (raw text); futures::executor::block_on + "
+        "StreamBuilder::collect for the streams",
         "Rust slice::sort_by on <= 20 attributes (insertion sort: the model's stable 3-way partition), str::trim",
     ],
     "modelled": ["leptos_macro/src/view/mod.rs: is_inert_element, inert_element_to_tokens (NoGlobalClass), node_to_tokens, "
                  "fragment_to_tokens / children_to_tokens (top_level), element_to_tokens (attribute sort, is_self_closing), "
                  "attribute_to_tokens / class_to_tokens / style_to_tokens / attribute_value for the 8 attribute forms of the grammar",
                  "component_builder.rs: children of a component as a top-level fragment (the component <Wrap> only)",
-                 "tachys InertElement::to_html_with_buf; HtmlElement / strings / attributes as in C06"],
+                 "tachys InertElement::to_html_with_buf; HtmlElement / strings / attributes as in C06; HtmlElement::to_html_async_with_buf "
+                 "(opening tag, children with E::ESCAPE_CHILDREN, closing tag from self.tag.tag()) for synchronous content"],
     "assumptions": ["no view!-level global class (view!{class=..,}), no spread / on: / prop: / use: / bind: / node_ref / inner_html attributes, "
                     "no slots, no MathML, no comments/doctype nodes; one component (<Wrap>: children in a <section>)",
                     "attribute names as the macro accepts them (distinct per element, one class= and one style=)",
@@ -103,7 +121,7 @@ CFG = {
                 "of the unrestricted statements with a kernel-checked witness replayed on the real macro (<!> marker inside "
                 "title/textarea/script/style); three defects repaired in /repo (fix-c18-1 noscript escaped at macro time only, fix-c18-3 "
                 "class trimmed at run time only, fix-c18-4 empty text vs one space), the pre-repair printer kept as inertHtmlOld with "
-                "regression witnesses. Table theorems over the regenerated element lists (macro no-escape list = runtime table). Tied to the code by compiling 320 template shapes x 3 variants with the real "
+                "regression witnesses. Table theorems over the regenerated element lists (macro no-escape list = runtime table). Tied to the code by compiling ~330 template shapes x 3 variants x 3 rendering entry points with the real "
                 "macro and comparing the rendered bytes with the compiled model, plus an independent tree oracle.",
         "design_ref": "DESIGN.md §7 C18",
         "note": "model hand-written, faithfulness checked by correspondence on the compiled expansions; the parser subset is C06's",
